@@ -62,7 +62,9 @@ def scan_writes(tree, modname, relpath, parents):
         else:
             first = fnode.args.args[0].arg if fnode.args.args else None
             direct = _direct_function(tgt, parents) is fnode
-            if not (isinstance(tgt.value, ast.Name) and tgt.value.id == first and first == "self"):
+            if _lazy_constant(tgt, fnode, parents):
+                ok, reason = True, "lazily initialised class-level CONSTANT (guarded by `is None`, value independent of every argument, immutable)"
+            elif not (isinstance(tgt.value, ast.Name) and tgt.value.id == first and first == "self"):
                 reason = f"store to an attribute of `{norm_text(tgt.value)}` (not the instance under construction)"
             elif not direct:
                 reason = "attribute store inside a nested function / lambda"
@@ -74,6 +76,43 @@ def scan_writes(tree, modname, relpath, parents):
                 reason = f"field `{tgt.attr}` written in `{fnode.name}` after construction"
         out.append(("store", fn, cl, tgt, ok, reason))
     return out
+
+
+def _lazy_constant(tgt, fnode, parents):
+    """`if C.attr is None: C.attr = <expr>` with C the class itself (`__class__`, `cls`, the class name), the store being a
+    direct statement of that `if`, and <expr> reading no parameter, no local and not the instance: the first caller
+    computes what every later caller would compute, so no call history can change a result.  The value must not be a
+    mutable container display (it would be shared by reference)."""
+    st = parents.get(tgt)
+    if not (isinstance(st, ast.Assign) and len(st.targets) == 1 and st.targets[0] is tgt):
+        return False
+    guard = parents.get(st)
+    if not (isinstance(guard, ast.If) and st in guard.body and not guard.orelse):
+        return False
+    t = guard.test
+    if not (isinstance(t, ast.Compare) and len(t.ops) == 1 and isinstance(t.ops[0], ast.Is) and
+            isinstance(t.comparators[0], ast.Constant) and t.comparators[0].value is None and
+            ast.dump(t.left) == ast.dump(ast.Attribute(value=tgt.value, attr=tgt.attr, ctx=ast.Load()))):
+        return False
+    recv = tgt.value
+    cls_node = parents.get(fnode) if isinstance(parents.get(fnode), ast.ClassDef) else None
+    first = fnode.args.args[0].arg if fnode.args.args else None
+    decos = {ast.unparse(d).split(".")[-1] for d in fnode.decorator_list}
+    is_class = isinstance(recv, ast.Name) and (recv.id == "__class__" or (cls_node is not None and recv.id == cls_node.name) or
+                                                (recv.id == first and first == "cls" and "classmethod" in decos))
+    if not is_class:
+        return False
+    a = fnode.args
+    params = {x.arg for x in a.posonlyargs + a.args + a.kwonlyargs} | ({a.vararg.arg} if a.vararg else set()) | ({a.kwarg.arg} if a.kwarg else set())
+    local = {n.id for n in ast.walk(fnode) if isinstance(n, ast.Name) and isinstance(n.ctx, ast.Store)}
+    if _mutable_expr(st.value):
+        return False
+    for n in ast.walk(st.value):
+        if isinstance(n, ast.Name) and (n.id in params or n.id in local) and not (n.id == "cls" and first == "cls"):
+            return False
+        if isinstance(n, (ast.Lambda, ast.Yield, ast.YieldFrom, ast.Await, ast.NamedExpr)):
+            return False
+    return True
 
 
 def _mutable_expr(e):
